@@ -3,7 +3,7 @@
    accumulator whose peak count differs from count_ones(leaf_count) is rejected).  sp_verify_v0 is the code
    before the repair and appears only in the HISTORICAL lemmas at the end. *)
 From Coq Require Import ZArith List Bool.
-From TF Require Import Word MmrIdxLocal Mmr MmrSpec MmrTerm MmrProofs MmrSmall.
+From TF Require Import Word MmrIdxLocal Mmr MmrSpec MmrTerm MmrProofs MmrSmall MmrSuccRej.
 Import ListNotations.
 Open Scope Z_scope.
 
@@ -32,6 +32,31 @@ Example C12_total_example :
   sp_verify_v1 term Node term_eqb Dflt [] (1, [Atom 0; Atom 5]) (1, [Atom 0]) = Some false /\
   sp_verify_v1 term Node term_eqb Dflt [] (1, []) (1, [Atom 0]) = Some false.
 Proof. exact sp_verify_v1_rejects_both. Qed.
+
+(* rejection lemmas.  (1) the number of digests is fixed by the two leaf counts: if some proof is accepted,
+   every proof of a different length - a missing or a surplus digest - is rejected.  (2) binding: if two
+   (old peak list, proof) pairs are both accepted for the same old leaf count and the same new accumulator
+   then they are equal, or a collision of H is exhibited - so any altered path digest, any rotation and any
+   altered old peak is rejected unless it comes with a collision.  (An altered new peak that covers old
+   leafs is rejected by C12_verify_exact directly: the specification compares that very peak.) *)
+Theorem C12_rejects_missing_or_surplus : forall (D : Type) (H : D -> D -> D) (deq : D -> D -> bool) (dflt : D),
+  (forall x y, deq x y = true <-> x = y) ->
+  forall (sp sp' : list D) (old new : Z * list D),
+  0 <= fst old < 2 ^ 64 -> 0 <= fst new < 2 ^ 64 -> zlen (snd old) < 2 ^ 32 -> zlen (snd new) < 2 ^ 32 ->
+  sp_verify_v1 D H deq dflt sp old new = Some true -> zlength sp' <> zlength sp ->
+  sp_verify_v1 D H deq dflt sp' old new = Some false.
+Proof. exact sp_rejects_wrong_length. Qed.
+Print Assumptions C12_rejects_missing_or_surplus.
+
+Theorem C12_binding : forall (D : Type) (H : D -> D -> D) (deq : D -> D -> bool) (dflt : D),
+  (forall x y, deq x y = true <-> x = y) ->
+  forall (sp sp' : list D) (oc : Z) (op op' : list D) (new : Z * list D),
+    0 <= oc < 2 ^ 64 -> 0 <= fst new < 2 ^ 64 -> zlen op < 2 ^ 32 -> zlen op' < 2 ^ 32 -> zlen (snd new) < 2 ^ 32 ->
+    sp_verify_v1 D H deq dflt sp (oc, op) new = Some true ->
+    sp_verify_v1 D H deq dflt sp' (oc, op') new = Some true ->
+    (sp = sp' /\ op = op') \/ collision D H.
+Proof. exact sp_binding. Qed.
+Print Assumptions C12_binding.
 
 (* complete, FULL statement: the generated proof verifies between the old accumulator and the one obtained
    by the appends (open: new_from_batch_append is node-index bookkeeping, see C16) *)
